@@ -425,7 +425,17 @@ func runC14(c *Ctx, r *Report, tier string) {
 		// a failing return throws away nothing that was read: with chunks accumulated, end of input is the
 		// end of the line, not an error (a last line of exactly k·bufsize bytes without a newline)
 		for _, ret := range returnsOf(rfl) {
-			if isConstNil(c.resolve(ret.Results[1])) {
+			// a return that ends the reading: a non-nil error, or (where end of input is told by a flag) that flag set
+			ending := false
+			for _, res := range ret.Results {
+				switch {
+				case relType(c, res.Type()) == "error":
+					ending = ending || !isConstNil(c.resolve(res))
+				case relType(c, res.Type()) == "bool":
+					ending = ending || c.term(res) == "true"
+				}
+			}
+			if !ending {
 				continue
 			}
 			_, ok := c.Requires(rfl, isInstr(ret), anyLit(
